@@ -24,7 +24,16 @@ package templates
 //@ extern net/http.ServeContent
 //@   modifies ghost:forwarded
 //@   ensures forwarded == old(forwarded) + 1
+//@ // "only that request is affected": the response buffer comes from a pool shared by all requests, so it is emptied
+//@ // before this request's handler chain writes into it, whatever state an earlier (possibly failed) request left it in
+//@ ghostfn blen
+//@ extern (*bytes.Buffer).Reset
+//@   modifies ghost:blen
+//@   ensures blen(b) == 0
+//@ extern (*sync.Pool).Get
+//@   ensures result != nil
 //@ extern github.com/tmpim/casket/caskethttp/httpserver.NewResponseBuffer
+//@   requires [pooled_buffer_starts_empty] buf != nil && blen(buf) == 0
 //@   ensures result != nil
 //@ extern text/template.New
 //@   ensures result != nil
